@@ -21,6 +21,8 @@ from drivers import scf_driver
 from harness import common, tlc
 from harness.tlc import Raw
 
+from . import repotraces
+
 PROP = "C03"
 
 # bound = C[pred][solver] * eps_eff + FLOOR[pred];  eps_eff = max(scf_eps, effective SP2 tolerance)
@@ -234,6 +236,19 @@ def main(tier):
                     c = byid[cid]
                     rep.violation("sp2_trace_rejected", {"job": {k: v2 for k, v2 in jobby_early[c["job"]].items()}, "call": cid, "matched": v["l"], "of": v["n"], "next_event_not_explained": c["ev"][v["l"]] if v["l"] < len(c["ev"]) else None},
                                   solver=jobby_early[c["job"]]["params"]["scf_converger"][0], sp2=True)
+        repo_info = {"spans": 0}
+        if tier == "thorough":
+            ev, rc, tail = repotraces.record(["tests/unit/test_batch_single_point.py", "tests/unit/test_smoke_single_point.py", "tests/unit/test_pm6_batch.py", "tests/unit/test_excited_states.py", "tests/unit/test_md_suite.py"], scratch, "scf")
+            repo_info["pytest"] = tail
+            if rc != 0:
+                rep.machinery("repository tests failed with hooks on: " + tail)
+            spans = [t for t in repotraces.scf_spans(ev) if not t.get("truncated")]
+            for n, t in enumerate(spans):
+                t["id"] = "repo#%05d" % n
+                t["job"] = "repo-tests"
+            repo_info["spans"] = len(spans)
+            traces += spans
+            jobs.append({"id": "repo-tests", "mols": ["(repository tests)"], "params": {"scf_converger": [1], "sp2": [False, 0], "scf_eps": 0}, "start": "-", "cap": None})
         verdicts, tres = validate(traces, scratch)
         if tres.error:
             rep.machinery("SCFTrace: " + tres.error[:800])
@@ -266,6 +281,7 @@ def main(tier):
             "traces_validated_against_impl": len(verdicts) + len(sp2calls),
             "traces_accepted": n_acc + n_sp2_ok,
             "sp2_calls_validated": len(sp2calls),
+            "repository_test_executions": repo_info,
             "samples": samples or [{"note": "none"}],
             "tlc_runs": tlc_runs,
             "spec_mutants_refuted": refuted,
